@@ -112,6 +112,184 @@ ProgMutants(pi) ==
           : ti \in {tj \in 1..Len(ts) : ts[tj] \in LitToks}}
   \cup {[kind |-> "prog", a |-> <<pi, 0>>, toks |-> ts]}
 
+\* ---------------- statement nesting (round 3): block shapes x what a nested block is the body of -----
+\* The programs above are ten fixed statement sequences; here the SHAPE of a statement tree is a dimension: every ordered
+\* tree of blocks up to a number of nodes (a Dyck word: 1 = "{", 0 = "}"; arity and depth vary together: siblings,
+\* chains, both), crossed with what a nested block is the body of (a bare block statement, if / else / do / while /
+\* for / label / try / function: StmWraps) for all, the odd or the even children of every block, crossed with where
+\* the other statements of a block stand (none: empty blocks; round every nested block; only at the start of a block).
+\* The reference tree is the statement parser's (ParseProg, below), the reference value the static trace of the tree.
+StmWraps == <<
+  [nm |-> "bare",   pre |-> <<>>,                                   suf |-> <<>>],
+  [nm |-> "if1",    pre |-> <<"if", "(", "1", ")">>,                suf |-> <<>>],
+  [nm |-> "if0",    pre |-> <<"if", "(", "0", ")">>,                suf |-> <<>>],
+  [nm |-> "else",   pre |-> <<"if", "(", "0", ")", "{", "}", "else">>, suf |-> <<>>],
+  [nm |-> "ifelse", pre |-> <<"if", "(", "1", ")">>,                suf |-> <<"else", "{", "}">>],
+  [nm |-> "do",     pre |-> <<"do">>,                               suf |-> <<"while", "(", "0", ")", ";">>],
+  [nm |-> "while",  pre |-> <<"while", "(", "0", ")">>,             suf |-> <<>>],
+  [nm |-> "for",    pre |-> <<"for", "(", "k", "=", "0", ";", "k", "<", "1", ";", "k", "++", ")">>, suf |-> <<>>],
+  [nm |-> "label",  pre |-> <<"x", ":">>,                           suf |-> <<>>],
+  [nm |-> "tryc",   pre |-> <<"try">>,                              suf |-> <<"catch", "(", "e", ")", "{", "}">>],
+  [nm |-> "tryf",   pre |-> <<"try">>,                              suf |-> <<"finally", "{", "}">>],
+  [nm |-> "trycf",  pre |-> <<"try">>,                              suf |-> <<"catch", "(", "e", ")", "{", "}", "finally", "{", "}">>],
+  [nm |-> "fun",    pre |-> <<"function", "g", "(", ")">>,          suf |-> <<>>],
+  [nm |-> "semi",   pre |-> <<";">>,                                suf |-> <<";">>]
+>>
+StmMasks == {"all", "odd", "even"}
+StmLeafModes == {0, 1, 2}                      \* 0 no other statement, 1 before / between / after the nested blocks, 2 only at the start
+DyH(wd, di) == Cardinality({dj \in 1..di : wd[dj] = 1}) - Cardinality({dj \in 1..di : wd[dj] = 0})
+DyckWords(nn) == {wd \in [1..(2 * nn) -> {0, 1}] : DyH(wd, 2 * nn) = 0 /\ \A di \in 1..(2 * nn - 1) : DyH(wd, di) > 0}
+DyMax(SS) == CHOOSE mx \in SS : \A el \in SS : el <= mx
+DyMin(SS) == CHOOSE mn \in SS : \A el \in SS : mn <= el
+DyParent(wd, di) == DyMax({dj \in 1..(di - 1) : wd[dj] = 1 /\ DyH(wd, dj) = DyH(wd, di) - 1})           \* di > 1 opens a nested block
+DyChildNo(wd, di) == 1 + Cardinality({dj \in (DyParent(wd, di) + 1)..(di - 1) : wd[dj] = 0 /\ DyH(wd, dj) = DyH(wd, di) - 1})
+DyOpenOf(wd, di) == DyMax({dj \in 1..(di - 1) : wd[dj] = 1 /\ DyH(wd, dj) = DyH(wd, di) + 1})           \* the "{" of the "}" at di
+DyDepth(wd) == DyMax({DyH(wd, di) : di \in 1..Len(wd)})
+DyHasSiblings(wd) == \E di \in 2..Len(wd) : wd[di] = 1 /\ DyChildNo(wd, di) >= 2
+StmWrapAt(wd, oi, wi, mk) ==
+  IF oi = 1 THEN 1
+  ELSE LET cn == DyChildNo(wd, oi) IN
+       IF mk = "all" \/ (mk = "odd" /\ cn % 2 = 1) \/ (mk = "even" /\ cn % 2 = 0) THEN wi ELSE 1
+StmLeaf(di) == <<"r", "+=", ToString(((di - 1) % 9) + 1), ";">>
+RECURSIVE StmBody(_, _, _, _, _)
+StmBody(wd, di, wi, mk, lf) ==
+  IF di > Len(wd) THEN <<>>
+  ELSE (IF wd[di] = 1
+        THEN StmWraps[StmWrapAt(wd, di, wi, mk)].pre \o <<"{">> \o (IF lf # 0 THEN StmLeaf(di) ELSE <<>>)
+        ELSE LET oi == DyOpenOf(wd, di) IN
+             <<"}">> \o StmWraps[StmWrapAt(wd, oi, wi, mk)].suf \o (IF lf = 1 /\ oi # 1 THEN StmLeaf(di) ELSE <<>>))
+       \o StmBody(wd, di + 1, wi, mk, lf)
+\* descriptor <<word, wrapper index, mask, leaf mode>>;  r collects the trace:  [] + []  is the empty string
+StmToks(ds) == <<"var", "r", "=", "[", "]", "+", "[", "]", ";">> \o StmBody(ds[1], 1, ds[2], ds[3], ds[4]) \o <<"r", ";">>
+StmFullN  == IF Quick THEN 4 ELSE 6             \* nodes of the block tree: full product up to here ...
+StmBareN  == IF Quick THEN 5 ELSE 7             \* ... and bare blocks only one size further
+StmDescsFor(nn) ==
+  IF nn <= StmFullN
+  THEN {<<wd, 1, "all", lf>> : wd \in DyckWords(nn), lf \in StmLeafModes}
+       \cup {<<wd, wi, mk, lf>> : wd \in DyckWords(nn), wi \in 2..Len(StmWraps), mk \in StmMasks, lf \in StmLeafModes}
+  ELSE {<<wd, 1, "all", lf>> : wd \in DyckWords(nn), lf \in StmLeafModes}
+
+\* the statement grammar of these programs (expressions: JsGrammar.PExpr)
+StOk(tr, nx) == [ok |-> TRUE, t |-> tr, n |-> nx]
+StFail(nx)   == [ok |-> FALSE, t |-> ErrTree, n |-> nx]
+PParenExpr(ts, pi) ==
+  IF Tok(ts, pi) # "(" THEN StFail(pi)
+  ELSE LET ex == PExpr(ts, pi + 1, {}) IN
+       IF ~ex.ok THEN StFail(ex.n) ELSE IF Tok(ts, ex.n) # ")" THEN StFail(ex.n) ELSE StOk(ex.t, ex.n + 1)
+RECURSIVE PStmt(_, _), PStmtList(_, _, _), PBlock(_, _)
+PBlock(ts, pi) == IF Tok(ts, pi) # "{" THEN StFail(pi) ELSE PStmtList(ts, pi + 1, <<>>)
+PStmtList(ts, pi, acc) ==
+  IF pi > Len(ts) THEN StFail(pi)
+  ELSE IF ts[pi] = "}" THEN StOk(Node("block", "", acc), pi + 1)
+  ELSE LET st == PStmt(ts, pi) IN IF ~st.ok THEN st ELSE PStmtList(ts, st.n, Append(acc, st.t))
+PStmt(ts, pi) ==
+  LET kw == Tok(ts, pi) IN
+  CASE kw = "{" -> PBlock(ts, pi)
+    [] kw = ";" -> StOk(Node("empty", "", <<>>), pi + 1)
+    [] kw = "var" ->
+         IF ~IsIdent(Tok(ts, pi + 1)) \/ Tok(ts, pi + 2) # "=" THEN StFail(pi + 1)
+         ELSE LET ex == PAssign(ts, pi + 3, {}) IN
+              IF ~ex.ok THEN StFail(ex.n) ELSE IF Tok(ts, ex.n) # ";" THEN StFail(ex.n)
+              ELSE StOk(Node("var", Tok(ts, pi + 1), <<ex.t>>), ex.n + 1)
+    [] kw = "if" ->
+         LET tst == PParenExpr(ts, pi + 1) IN
+         IF ~tst.ok THEN tst
+         ELSE LET cs == PStmt(ts, tst.n) IN
+              IF ~cs.ok THEN cs
+              ELSE IF Tok(ts, cs.n) = "else"                               \* an else belongs to the nearest if
+              THEN LET al == PStmt(ts, cs.n + 1) IN IF ~al.ok THEN al ELSE StOk(Node("if", "", <<tst.t, cs.t, al.t>>), al.n)
+              ELSE StOk(Node("if", "", <<tst.t, cs.t>>), cs.n)
+    [] kw = "while" ->
+         LET tst == PParenExpr(ts, pi + 1) IN
+         IF ~tst.ok THEN tst
+         ELSE LET bd == PStmt(ts, tst.n) IN IF ~bd.ok THEN bd ELSE StOk(Node("while", "", <<tst.t, bd.t>>), bd.n)
+    [] kw = "do" ->
+         LET bd == PStmt(ts, pi + 1) IN
+         IF ~bd.ok THEN bd
+         ELSE IF Tok(ts, bd.n) # "while" THEN StFail(bd.n)
+         ELSE LET tst == PParenExpr(ts, bd.n + 1) IN
+              IF ~tst.ok THEN tst ELSE IF Tok(ts, tst.n) # ";" THEN StFail(tst.n)
+              ELSE StOk(Node("do", "", <<bd.t, tst.t>>), tst.n + 1)
+    [] kw = "for" ->
+         IF Tok(ts, pi + 1) # "(" THEN StFail(pi + 1)
+         ELSE LET e1 == PExpr(ts, pi + 2, {}) IN
+              IF ~e1.ok THEN StFail(e1.n) ELSE IF Tok(ts, e1.n) # ";" THEN StFail(e1.n)
+              ELSE LET e2 == PExpr(ts, e1.n + 1, {}) IN
+                   IF ~e2.ok THEN StFail(e2.n) ELSE IF Tok(ts, e2.n) # ";" THEN StFail(e2.n)
+                   ELSE LET e3 == PExpr(ts, e2.n + 1, {}) IN
+                        IF ~e3.ok THEN StFail(e3.n) ELSE IF Tok(ts, e3.n) # ")" THEN StFail(e3.n)
+                        ELSE LET bd == PStmt(ts, e3.n + 1) IN
+                             IF ~bd.ok THEN bd ELSE StOk(Node("for", "", <<e1.t, e2.t, e3.t, bd.t>>), bd.n)
+    [] kw = "try" ->
+         LET bk == PBlock(ts, pi + 1) IN
+         IF ~bk.ok THEN bk
+         ELSE LET hasc == Tok(ts, bk.n) = "catch"
+                  hd == IF hasc /\ Tok(ts, bk.n + 1) = "(" /\ IsIdent(Tok(ts, bk.n + 2)) /\ Tok(ts, bk.n + 3) = ")"
+                        THEN PBlock(ts, bk.n + 4) ELSE StFail(bk.n + 1)
+                  fpos == IF hasc THEN hd.n ELSE bk.n
+                  hasf == Tok(ts, fpos) = "finally"
+                  fn == IF hasf THEN PBlock(ts, fpos + 1) ELSE StFail(fpos) IN
+              IF hasc /\ ~hd.ok THEN hd
+              ELSE IF hasf /\ ~fn.ok THEN fn
+              ELSE IF ~hasc /\ ~hasf THEN StFail(bk.n)
+              ELSE StOk(Node("try", IF hasc /\ hasf THEN "cf" ELSE IF hasc THEN "c" ELSE "f",
+                             <<bk.t>> \o (IF hasc THEN <<Id(Tok(ts, bk.n + 2)), hd.t>> ELSE <<>>) \o (IF hasf THEN <<fn.t>> ELSE <<>>)),
+                        IF hasf THEN fn.n ELSE hd.n)
+    [] kw = "function" ->
+         IF ~IsIdent(Tok(ts, pi + 1)) \/ Tok(ts, pi + 2) # "(" \/ Tok(ts, pi + 3) # ")" THEN StFail(pi + 1)
+         ELSE LET bk == PBlock(ts, pi + 4) IN IF ~bk.ok THEN bk ELSE StOk(Node("fun", Tok(ts, pi + 1), <<bk.t>>), bk.n)
+    [] IsIdent(kw) /\ Tok(ts, pi + 1) = ":" ->
+         LET bd == PStmt(ts, pi + 2) IN IF ~bd.ok THEN bd ELSE StOk(Node("label", kw, <<bd.t>>), bd.n)
+    [] OTHER ->
+         LET ex == PExpr(ts, pi, {}) IN
+         IF ~ex.ok THEN StFail(ex.n) ELSE IF Tok(ts, ex.n) # ";" THEN StFail(ex.n) ELSE StOk(Node("es", "", <<ex.t>>), ex.n + 1)
+RECURSIVE PProg(_, _, _)
+PProg(ts, pi, acc) ==
+  IF pi > Len(ts) THEN StOk(Node("prog", "", acc), pi)
+  ELSE LET st == PStmt(ts, pi) IN IF ~st.ok THEN st ELSE PProg(ts, st.n, Append(acc, st.t))
+ParseProg(ts) == LET res == PProg(ts, 1, <<>>) IN [ok |-> res.ok, t |-> res.t]
+\* the statements run, in order (the control flow of these programs is static: StaticFlow), as the numbers appended to r
+StmTags == {"prog", "block", "empty", "var", "if", "while", "do", "for", "label", "try", "fun", "es"}
+ForHead == <<Node("asg", "=", <<Id("k"), Num("0")>>), Bin("<", Id("k"), Num("1")), Node("post", "++", <<Id("k")>>)>>
+RECURSIVE Trace(_), TraceSeq(_, _), StaticFlow(_), CountTag(_, _), CountTagSeq(_, _, _)
+TraceSeq(ks, ki) == IF ki > Len(ks) THEN <<>> ELSE Trace(ks[ki]) \o TraceSeq(ks, ki + 1)
+Trace(st) ==
+  CASE st.t \in {"prog", "block"} -> TraceSeq(st.kids, 1)
+    [] st.t = "es" -> LET ex == st.kids[1] IN
+                      IF ex.t = "asg" /\ ex.op = "+=" /\ ex.kids[1] = Id("r") /\ ex.kids[2].t = "num" THEN <<ex.kids[2].op>> ELSE <<>>
+    [] st.t = "if" -> IF st.kids[1] = Num("1") THEN Trace(st.kids[2]) ELSE IF Len(st.kids) = 3 THEN Trace(st.kids[3]) ELSE <<>>
+    [] st.t = "do" -> Trace(st.kids[1])
+    [] st.t = "for" -> Trace(st.kids[4])                                  \* k = 0 ; k < 1 : once, also when a nested loop uses k
+    [] st.t = "label" -> Trace(st.kids[1])
+    [] st.t = "try" -> Trace(st.kids[1]) \o (IF st.op \in {"f", "cf"} THEN Trace(st.kids[Len(st.kids)]) ELSE <<>>)
+    [] OTHER -> <<>>                                                      \* var, empty, while (0), function never called
+StaticFlow(st) ==
+  /\ st.t \in StmTags
+  /\ CASE st.t \in {"prog", "block"} -> \A ki \in 1..Len(st.kids) : StaticFlow(st.kids[ki])
+       [] st.t = "if" -> st.kids[1] \in {Num("0"), Num("1")} /\ \A ki \in 2..Len(st.kids) : StaticFlow(st.kids[ki])
+       [] st.t = "while" -> st.kids[1] = Num("0") /\ StaticFlow(st.kids[2])
+       [] st.t = "do" -> st.kids[2] = Num("0") /\ StaticFlow(st.kids[1])
+       [] st.t = "for" -> <<st.kids[1], st.kids[2], st.kids[3]>> = ForHead /\ StaticFlow(st.kids[4])
+       [] st.t = "label" -> StaticFlow(st.kids[1])
+       [] st.t = "try" -> \A ki \in 1..Len(st.kids) : st.kids[ki].t = "id" \/ StaticFlow(st.kids[ki])
+       [] st.t = "fun" -> StaticFlow(st.kids[1])
+       [] OTHER -> TRUE
+CountTagSeq(ks, ki, tg) == IF ki > Len(ks) THEN 0 ELSE CountTag(ks[ki], tg) + CountTagSeq(ks, ki + 1, tg)
+CountTag(tr, tg) == (IF tr.t = tg THEN 1 ELSE 0) + CountTagSeq(tr.kids, 1, tg)
+CountTok(ts, tk) == Cardinality({ti \in 1..Len(ts) : ts[ti] = tk})
+NumTokUnits(tk) == IF tk = "10" THEN <<49, 48>> ELSE <<48 + (CHOOSE dg \in 0..9 : ToString(dg) = tk)>>
+RECURSIVE TraceUnits(_)
+TraceUnits(trc) == IF trc = <<>> THEN <<>> ELSE NumTokUnits(Head(trc)) \o TraceUnits(Tail(trc))
+\* the sub-grid of the quick tier still holds every class (checked in the initial state of the Enum run)
+StmSizes == 1..StmBareN
+StmGridLaw ==
+  LET DS == UNION {StmDescsFor(nn) : nn \in StmSizes} IN
+  /\ \A wi \in 1..Len(StmWraps), lf \in StmLeafModes : \A mk \in (IF wi = 1 THEN {"all"} ELSE StmMasks) :
+        /\ \E ds \in DS : ds[2] = wi /\ ds[3] = mk /\ ds[4] = lf /\ DyHasSiblings(ds[1]) /\ DyDepth(ds[1]) >= 3     \* siblings below the root's child
+        /\ \E ds \in DS : ds[2] = wi /\ ds[3] = mk /\ ds[4] = lf /\ DyDepth(ds[1]) >= 4                              \* a chain
+        /\ \E ds \in DS : ds[2] = wi /\ ds[3] = mk /\ ds[4] = lf /\ \E di \in 2..Len(ds[1]) : ds[1][di] = 1 /\ DyChildNo(ds[1], di) >= 3
+  /\ \E ds \in DS : Len(ds[1]) = 2 * StmBareN
+
 \* ---------------- literal spellings ------------------------------------------------------------
 \* numbers: the dyadic rational kk / 2^jj
 NumValues == {<<0, 0>>, <<1, 0>>, <<7, 0>>, <<8, 0>>, <<10, 0>>, <<14, 0>>, <<30, 0>>, <<15, 0>>, <<16, 0>>, <<100, 0>>, <<255, 0>>, <<256, 0>>,
@@ -443,6 +621,7 @@ Groups == {<<"tree", o1>> : o1 \in O1Lo..O1Hi}
           \cup (IF O1Lo = 1 THEN {<<"rej", 0>>, <<"unexp", 0>>, <<"lit", 0>>} \cup {<<"prog", pi>> : pi \in 1..Len(Progs)}
                                   \cup {<<"cmt", ci>> : ci \in 1..Len(CmtCtx)} \cup {<<"strb", 39>>, <<"strb", 34>>, <<"ut", 0>>, <<"rx", 0>>}
                                   \cup {<<"nform", 0>>} \cup {<<"nctx", ci>> : ci \in 1..Len(NumCtx)}
+                                  \cup {<<"stm", nn>> : nn \in StmSizes}
                 ELSE {})
 EnumNext ==
   \/ /\ ph = "start"
@@ -478,6 +657,8 @@ EnumNext ==
            /\ \E cs \in NumFormCases : cur' = CaseU(cs)
         \/ /\ cur.kind = "nctx"
            /\ \E cs \in NctxCases(cur.a[1]) : cur' = cs
+        \/ /\ cur.kind = "stm"
+           /\ \E ds \in StmDescsFor(cur.a[1]) : cur' = CaseT("stm", <<ds[2], ds[4], ds[3]>> \o ds[1], StmToks(ds))
 EnumEmit == ph # "case" \/ PrintT(ToJson(cur))
 
 \* ---------------- Laws (INVARIANT in the Enum configuration) -----------------------------------
@@ -507,6 +688,11 @@ Law(cs) ==
              fsm == Lex(ClassesOfUnits(cs.u), FALSE, {}) IN
          /\ lit.ok /\ lit.u = StrValues[cs.a[1]]
          /\ (TextSupported(cs.u) => fsm.err.k = "none" /\ Len(fsm.out) = 1 /\ fsm.out[1].k = "str")
+    [] cs.kind = "stm" ->                                                 \* a program of the statement grammar: as many blocks /
+         LET res == ParseProg(cs.toks) IN                                 \* statements in the tree as written, static control flow
+         /\ res.ok /\ Balanced(cs.toks) /\ StaticFlow(res.t)
+         /\ CountTag(res.t, "block") = CountTok(cs.toks, "{") /\ CountTag(res.t, "es") = CountTok(cs.toks, "+=") + 1
+         /\ cs.toks = StmToks(<<SubSeq(cs.a, 4, Len(cs.a)), cs.a[1], cs.a[3], cs.a[2]>>)
     [] cs.kind = "prog" -> Balanced(cs.toks)
     [] cs.kind = "pdelbr" -> ~Balanced(cs.toks)
     [] cs.kind = "pdelterm" -> TRUE                                       \* decided on the rendered text by LexerFSM (Judge)
@@ -530,7 +716,7 @@ Law(cs) ==
     [] cs.kind = "rxdel" -> Lex(ClassesOfUnitsX(cs.u \o <<10>>), TRUE, {}).err.k = "unterminated-regex"
     [] cs.kind = "rxnl" -> Lex(ClassesOfUnitsX(cs.u), TRUE, {}).err.k = "unterminated-regex"
     [] OTHER -> FALSE
-LawsHold == (ph = "start" => NumGridLaw) /\ (ph # "case" \/ Law(cur))
+LawsHold == (ph = "start" => NumGridLaw /\ StmGridLaw) /\ (ph # "case" \/ Law(cur))
 
 \* ---------------- Judge ------------------------------------------------------------------------
 \* records: [id, kind, a, toks, u, lay, act, act0, ev0, ev1, ast0, ast1]   (act0 = parse of the base rendering)
@@ -632,6 +818,17 @@ JudgeText(r) ==
             THEN Mis(CHOOSE dd \in asis.fired : TRUE, "malformed source accepted")
             ELSE Mis("", "malformed source accepted")
 
+\* statement nesting: the engine's tree (re-shaped by the driver into the record layout) against the statement grammar,
+\* the value of r against the static trace of the reference tree
+JudgeStm(r) ==
+  LET ref == ParseProg(r.toks) IN
+  IF ~ref.ok \/ ~StaticFlow(ref.t) THEN Unsup("generated program is not in the statement grammar")
+  ELSE IF r.act.o = "syntax" THEN Mis("", "valid program rejected")
+  ELSE IF r.act.o # "tree" THEN Mis("", "parser raised a host exception or did not answer")
+  ELSE IF r.act.t # ref.t THEN Mis("", "statement tree differs from the grammar")
+  ELSE IF r.ev1.o = "value" /\ r.ev1.v.k = "str" /\ r.ev1.v.u = TraceUnits(Trace(ref.t)) THEN Pass
+  ELSE Mis("", "statements run differently from the tree")
+
 \* layout variants of programs: two observations of the engine compared with each other
 JudgeProgVariant(r) ==
   IF ~LayoutSupported(r.lay) \/ Significant(r.lay) # r.toks THEN Unsup("variant is not a layout of the program")
@@ -682,6 +879,7 @@ Verdict(r) ==
     [] r.kind = "cmt" -> JudgeCmt(r)
     [] r.kind = "strb" -> JudgeStr(r)
     [] r.kind = "pvariant" -> JudgeProgVariant(r)
+    [] r.kind = "stm" -> JudgeStm(r)
     [] r.kind = "num" -> JudgeNum(r)
     [] r.kind = "nctx" -> JudgeNumCtx(r)
     [] r.kind = "str" -> JudgeStr(r)
